@@ -101,38 +101,59 @@ def run(ctx):
     # R4 chain folding
     ob = ctx.fn(F, "ConstantFolder.on_block")
     site = F + ":ConstantFolder.on_block"
+    from .. import sym as _sym
+    n_chain = 0
     for i in [n for n in walk_no_nested(ob) if isinstance(n, ast.If)]:
-        conj = []
-        def flat(t):
-            if isinstance(t, ast.BoolOp) and isinstance(t.op, ast.And):
-                for v in t.values:
-                    flat(v)
-            else:
-                conj.append(t)
-        flat(i.test)
-        inner = outer = None
+        conj = _sym.flatten_bool(i.test)
+        pairs = set()       # (inner op, outer op) shapes this branch rewrites
+        outer_ops, inner_ops, same = None, None, False
         for t in conj:
-            if isinstance(t, ast.Compare) and isinstance(t.ops[0], ast.Eq) and isinstance(t.comparators[0], ast.Constant):
-                if norm(t.left) == "instruction.a.operation":
-                    inner = t.comparators[0].value
-                elif norm(t.left) == "instruction.operation":
-                    outer = t.comparators[0].value
-        if inner is None or outer is None:
+            if isinstance(t, ast.Compare) and len(t.ops) == 1:
+                l, r = norm(t.left), t.comparators[0]
+                vals = None
+                if isinstance(t.ops[0], ast.Eq) and isinstance(r, ast.Constant):
+                    vals = {r.value}
+                elif isinstance(t.ops[0], ast.In) and isinstance(r, (ast.Tuple, ast.List, ast.Set)) and all(isinstance(e, ast.Constant) for e in r.elts):
+                    vals = {e.value for e in r.elts}
+                if vals is not None and l == "instruction.operation":
+                    outer_ops = vals
+                elif vals is not None and l == "instruction.a.operation":
+                    inner_ops = vals
+                elif isinstance(t.ops[0], ast.Eq) and {l, norm(r)} == {"instruction.operation", "instruction.a.operation"}:
+                    same = True
+        if same and (outer_ops or inner_ops):
+            for o in (outer_ops or inner_ops):
+                pairs.add((o, o))
+        elif outer_ops and inner_ops:
+            pairs = {(a_, b_) for a_ in inner_ops for b_ in outer_ops}
+        if not pairs:
             continue
+        n_chain += 1
+        # how are the two constants combined?
+        env = _sym.single_assign_env(ob)
+        benv = {}
+        for st in i.body:
+            if isinstance(st, ast.Assign) and isinstance(st.targets[0], ast.Name) and st.targets[0].id not in ("a", "b"):
+                benv.setdefault(st.targets[0].id, st.value)
         comb = None
         for c in [c for st in i.body for c in calls_in(st)]:
             if call_name(c) in ("ir.Const", "Const") and c.args:
-                for n in ast.walk(c.args[0]):
+                e = _sym.deep_inline(c.args[0], benv)
+                for n in ast.walk(e):
                     if isinstance(n, ast.BinOp) and {norm(n.left), norm(n.right)} == {"a.value", "b.value"}:
-                        comb = type(n.op).__name__
-        if comb is None:
-            ctx.undecided("C38.R4", site, "combination of the two constants not found in branch (%s,%s)" % (inner, outer))
-            continue
-        if inner == outer and inner in ("+", "-"):
-            ctx.ob("C38.R4", site, "(y %s c1) %s c2 == y %s (c1 + c2): constants are added" % (inner, outer, inner), comb == "Add",
-                   construct="chain:%s%s" % (inner, outer), node=i, detail="constants combined with %s" % comb)
-        else:
-            ctx.undecided("C38.R4", site, "chain shape (%s,%s) has no rule" % (inner, outer))
+                        comb = "Add" if isinstance(n.op, ast.Add) else type(n.op).__name__
+                    elif isinstance(n, ast.Call) and isinstance(n.func, ast.Subscript) and norm(n.func.value) == "self.ops" and any(norm(x) in ("a.value", "b.value") for x in n.args):
+                        k = n.func.slice
+                        comb = "Add" if (isinstance(k, ast.Constant) and k.value == "+") else "ops[%s]" % norm(k)
+                    elif isinstance(n, ast.Call) and norm(n.func) in ("operator.add", "add") and {norm(x) for x in n.args} == {"a.value", "b.value"}:
+                        comb = "Add"
+        for inner, outer in sorted(pairs):
+            if inner == outer and inner in ("+", "-"):
+                ctx.ob("C38.R4", site, "(y %s c1) %s c2 == y %s (c1 + c2): the two constants are ADDED whatever the operator of the chain" % (inner, outer, inner), comb == "Add",
+                       construct="chain:%s%s" % (inner, outer), node=i, detail="constants combined with %s" % comb)
+            else:
+                ctx.ob("C38.R4", site, "only chains of one and the same operator (+,+ or -,-) are re-associated", False, construct="chain:%s%s" % (inner, outer), node=i, detail="branch also matches (y %s c1) %s c2" % (inner, outer))
+    ctx.need(n_chain >= 1, "ConstantFolder.on_block: re-association branches not found")
     ic = ctx.fn(F, "ConstantFolder.is_const")
     ok = False
     for n in walk_no_nested(ic):
